@@ -15,15 +15,15 @@ import (
 
 func init() {
 	registry["C19"] = runC19
-	subcmds["gen-configtable"] = genConfigTable
+	subcmds["gen-configtable"] = c19GenConfigTable
 	subcmds["c19-write"] = c19WriteChild
 }
 
 func c19CoqStr(s string) string { return Render(S(s))[3:] }
 
-// genConfigTable is the translator shared by C19 and C10: it dumps driver.configFields (as the
+// c19GenConfigTable is the translator shared by C19 and C10: it dumps driver.configFields (as the
 // init() of /repo's current source computes it) as Gallina data.
-func genConfigTable(args []string) {
+func c19GenConfigTable(args []string) {
 	var sb strings.Builder
 	sb.WriteString("(* GENERATED from /repo/internal/driver/config.go (configFields, defaultConfig, resetTransient) on every run; do not edit. *)\n")
 	sb.WriteString("From PV Require Import M_Config.\nOpen Scope string_scope.\n\n")
@@ -54,9 +54,9 @@ func genConfigTable(args []string) {
 
 // ---- terms
 
-// cfgTerm encodes a config as its difference from defaultConfig(): [field index; get(field)]
+// c19CfgTerm encodes a config as its difference from defaultConfig(): [field index; get(field)]
 // for every field whose value is not the default (string literals are what makes Coq slow).
-func cfgTerm(c driver.VerifConfig) Term {
+func c19CfgTerm(c driver.VerifConfig) Term {
 	l := []Term{}
 	def := driver.VerifConfigDump(driver.VerifDefaultConfig())
 	for i, p := range driver.VerifConfigDump(c) {
@@ -67,7 +67,7 @@ func cfgTerm(c driver.VerifConfig) Term {
 	return L(l...)
 }
 
-func valuesTerm(q url.Values) Term {
+func c19ValuesTerm(q url.Values) Term {
 	var ks []string
 	for k := range q {
 		ks = append(ks, k)
@@ -102,7 +102,7 @@ func c19PfTable(strs map[string]bool) Term {
 	return L(l...)
 }
 
-func collect(strs map[string]bool, q url.Values) {
+func c19Collect(strs map[string]bool, q url.Values) {
 	for _, vs := range q {
 		for _, v := range vs {
 			strs[v] = true
@@ -110,8 +110,8 @@ func collect(strs map[string]bool, q url.Values) {
 	}
 }
 
-// collectCfg adds the values of the float fields (the only ones the model asks the oracle about)
-func collectCfg(strs map[string]bool, c driver.VerifConfig) {
+// c19CollectCfg adds the values of the float fields (the only ones the model asks the oracle about)
+func c19CollectCfg(strs map[string]bool, c driver.VerifConfig) {
 	fl := driver.VerifConfigFields()
 	for i, p := range driver.VerifConfigDump(c) {
 		if fl[i].Kind == "float64" {
@@ -129,7 +129,7 @@ var c19FloatPool = []string{"0", "0.005", "0.001", "1", "0.5", "1e-07", "1e+21",
 var c19JunkPool = []string{"10", "+5", "007", "-0", "1e3", " 5", "9223372036854775808", "-9223372036854775809", "abc", "T", "yes", "no", "maybe",
 	"NaN", "inf", "0x1p-2", "1_000", ".5", "5.", "1e400", "TRUE", "False", "y", "N", "2", "-", "+", "١", "0.0050", "cum", "files", "Flat"}
 
-func genConfig(r *Rng, fields []driver.VerifField) driver.VerifConfig {
+func c19GenConfig(r *Rng, fields []driver.VerifField) driver.VerifConfig {
 	var pairs [][2]string
 	mode := r.Intn(6) // 1: mixed, 2: everything random, others: mostly default
 	for _, f := range fields {
@@ -171,7 +171,7 @@ func genConfig(r *Rng, fields []driver.VerifField) driver.VerifConfig {
 	return c
 }
 
-func genQuery(r *Rng, fields []driver.VerifField, density int) url.Values {
+func c19GenQuery(r *Rng, fields []driver.VerifField, density int) url.Values {
 	q := url.Values{}
 	for _, f := range fields {
 		if f.URLParam == "" || !r.P(density, 10) {
@@ -210,16 +210,16 @@ func genQuery(r *Rng, fields []driver.VerifField, density int) url.Values {
 	return q
 }
 
-func applyObs(c driver.VerifConfig, q url.Values) Term {
+func c19ApplyObs(c driver.VerifConfig, q url.Values) Term {
 	c2, err := driver.VerifApplyURL(c, q)
 	if err != nil {
-		return L(S("err"), S(errField(err)))
+		return L(S("err"), S(c19ErrField(err)))
 	}
-	return L(S("ok"), cfgTerm(c2))
+	return L(S("ok"), c19CfgTerm(c2))
 }
 
-// errField extracts the field name of "error setting config field <name>: ..."
-func errField(err error) string {
+// c19ErrField extracts the field name of "error setting config field <name>: ..."
+func c19ErrField(err error) string {
 	const p = "error setting config field "
 	m := err.Error()
 	if strings.HasPrefix(m, p) {
@@ -231,7 +231,7 @@ func errField(err error) string {
 	return "?" + m
 }
 
-func urlOf(q url.Values) url.URL { return url.URL{Path: "/top", RawQuery: q.Encode()} }
+func c19URLOf(q url.Values) url.URL { return url.URL{Path: "/top", RawQuery: q.Encode()} }
 
 func runC19(c *Ctx) {
 	fields := driver.VerifConfigFields()
@@ -242,21 +242,21 @@ func runC19(c *Ctx) {
 	// --- URL mapping: makeURL on (cfg, q0), then applyURL of the result on the default config
 	urlCase := func(gen string, cfg driver.VerifConfig, q0 url.Values) {
 		strs := map[string]bool{}
-		collect(strs, q0)
-		collectCfg(strs, cfg)
-		u2, changed := driver.VerifMakeURL(cfg, urlOf(q0))
+		c19Collect(strs, q0)
+		c19CollectCfg(strs, cfg)
+		u2, changed := driver.VerifMakeURL(cfg, c19URLOf(q0))
 		q2 := u2.Query()
-		collect(strs, q2)
-		obs := L(valuesTerm(q2), Bool(changed), applyObs(driver.VerifDefaultConfig(), q2))
-		in := L(S("url"), c19PfTable(strs), cfgTerm(cfg), valuesTerm(q0))
+		c19Collect(strs, q2)
+		obs := L(c19ValuesTerm(q2), Bool(changed), c19ApplyObs(driver.VerifDefaultConfig(), q2))
+		in := L(S("url"), c19PfTable(strs), c19CfgTerm(cfg), c19ValuesTerm(q0))
 		c.Case(gen, in, obs, changed, "op:url")
 	}
 	urlCase("url-default", driver.VerifDefaultConfig(), url.Values{})
 	for k := 0; k < c.Budget(300, 5000); k++ {
-		cfg := genConfig(c.R, fields)
+		cfg := c19GenConfig(c.R, fields)
 		q0 := url.Values{}
 		if c.R.P(1, 2) {
-			q0 = genQuery(c.R, fields, 1+c.R.Intn(9))
+			q0 = c19GenQuery(c.R, fields, 1+c.R.Intn(9))
 		}
 		urlCase("url-random", cfg, q0)
 	}
@@ -276,12 +276,12 @@ func runC19(c *Ctx) {
 	}
 	// --- applyURL on an arbitrary base config and an arbitrary query (error paths, order)
 	for k := 0; k < c.Budget(300, 5000); k++ {
-		cfg := genConfig(c.R, fields)
-		q := genQuery(c.R, fields, 1+c.R.Intn(9))
+		cfg := c19GenConfig(c.R, fields)
+		q := c19GenQuery(c.R, fields, 1+c.R.Intn(9))
 		strs := map[string]bool{}
-		collect(strs, q)
-		collectCfg(strs, cfg)
-		c.Case("apply-random", L(S("apply"), c19PfTable(strs), cfgTerm(cfg), valuesTerm(q)), applyObs(cfg, q), len(q) > 0, "op:apply")
+		c19Collect(strs, q)
+		c19CollectCfg(strs, cfg)
+		c.Case("apply-random", L(S("apply"), c19PfTable(strs), c19CfgTerm(cfg), c19ValuesTerm(q)), c19ApplyObs(cfg, q), len(q) > 0, "op:apply")
 	}
-	runC19Settings(c, fields)
+	c19RunSettings(c, fields)
 }
